@@ -36,6 +36,9 @@ CASES = {
     'write-vs-comm': [[['write', 'W1'], ['comm', 'A2']], [['comm', 'B1']]],
     'faults-seq': [[['comm', 'A1'], ['sleep', 1.0], ['comm', 'A2'], ['sleep', 1.0], ['comm', 'A3']]],
     'faults-two': [[['comm', 'A1'], ['sleep', 1.0], ['comm', 'A2']], [['sleep', 0.5], ['comm', 'B1'], ['sleep', 1.0], ['comm', 'B2']]],
+    # the poll thread polls is_connected while callers talk (its connect attempts are not rate limited)
+    'poller-vs-comm': [[['sleep', 1.0], ['pollconn', None], ['sleep', 1.0], ['pollconn', None]],
+                       [['comm', 'A1'], ['sleep', 1.0], ['comm', 'A2'], ['sleep', 1.0], ['comm', 'A3']]],
     'three': [[['comm', 'A1']], [['multi', [['M1', True, 0.2], ['M2', False, 0], ['M3', True, 0]]]], [['comm', 'C1']]],
 }
 
@@ -154,6 +157,12 @@ def do_op(io, kind, op, sched, eol='\n'):
         from vf.engines import schedx
         schedx.vsleep(arg)
         return None
+    if name == 'pollconn':          # what the poll thread does every pollinterval of the communicator
+        try:
+            io.read_is_connected()
+        except Exception:           # noqa  (callPollFunc swallows SECoP errors)
+            pass
+        return None
     t0 = sched.now
     try:
         if name == 'comm':
@@ -252,7 +261,7 @@ def judge(case, sched, x, world, out, net):
     ncallers = len(case['threads'])
     total_delay = sum(r[2] for ops in case['threads'] for op in ops if op[0] == 'multi' for r in op[1]) + \
         sum(op[1] for ops in case['threads'] for op in ops if op[0] == 'sleep')
-    ncalls = sum(1 if op[0] != 'multi' else len(op[1]) for ops in case['threads'] for op in ops if op[0] != 'sleep')
+    ncalls = sum(1 if op[0] != 'multi' else len(op[1]) for ops in case['threads'] for op in ops if op[0] not in ('sleep', 'pollconn'))
     limit = ncalls * (TIMEOUT + 2.0) + total_delay + 1e-6
     disturbed = any(a != 'now' for _c, a in world.answers)
     for i, results in enumerate(out['results']):
@@ -310,6 +319,8 @@ def judge(case, sched, x, world, out, net):
     # reconnect rate limit: every attempt after the first is caller-triggered
     att = out.get('attempts', world.attempts)[1:]
     prev = None
+    if any(op[0] == 'pollconn' for ops in case['threads'] for op in ops):
+        att = []        # the poll thread's own attempts come every pollinterval of the communicator by construction
     for t in att:
         if prev is not None and t - prev < POLLINTERVAL - 1e-9:
             viol.append(('reconnect-attempts-closer-than-pollinterval', f'connect attempts at {[round(a - world.attempts[0], 2) for a in world.attempts]} (pollinterval {POLLINTERVAL})'))
@@ -493,6 +504,8 @@ def run(ctx):
         st = max(nm // 32, 1)
         shards += [(k, cmd, lo, min(lo + st, nm), eol) for k in ('string', 'bytes') for lo in range(0, nm, st)]
     ctx.pmap(chunk_fn, shards, name='chunking')
+    from vf.harness import c16resume
+    c16resume.run_resume(ctx)
     ctx.rule = ('schedules: for every case (caller operations x communicator kind) all executions with <= bound preemptions and <= dev '
                 'environment deviations (device answers: now / late / late-split / garbage after / silent / close before / close after; '
                 'reconnect accept / refuse); chunking: all 2^(n-1) segmentations of the reply bytes; evaluations = complete executions '
@@ -507,6 +520,9 @@ def replay(case):
     part = core.Part()
     if 'chunk' in case:
         return chunk_fn(tuple(case['chunk']))
+    if case.get('kind') == 'resume':
+        from vf.harness import c16resume
+        return c16resume.replay_resume(case)
     x, viol, sched, world, out = execute(case, case['prefix'])
     for sig, detail in viol:
         part.violation(f'C16:{case["kind"]}:{sig}', case, detail)
